@@ -5,4 +5,4 @@ CONSTANT NTasks <- NT
 CONSTANT UNIQUE_BUSY = TRUE
 INVARIANT NoLostTask
 CHECK_DEADLOCK FALSE
-CONSTANT PUBLISH_GUARDED = FALSE
+CONSTANT PUBLISH_GUARDED = TRUE
